@@ -15,3 +15,57 @@ Theorem C16_valid_name_spec : forall name,
   (exists a rest, name = String a rest /\ a <> "."%char /\ a <> "/"%char /\ a <> "\"%char) /\
   ~ In "/"%char (chars_of name).
 Proof. exact valid_name_spec. Qed.
+
+(** * Rejection: an invalid name is refused before any cache directory is touched *)
+From Kismet Require Import FS.Fs FS.Prog Ops.Ops Spec.ClassMon Proofs.RejectProofs.
+
+(** On every run (every filesystem state, fault and oracle), for every invalid
+    name: the result is InvalidInput and NO call of the operation names a path
+    under any of the given directories [roots] — in particular under the cache
+    directories.  Lookups need a non-empty stack; writes first flush the
+    caller's source file (outside the cache) and report Unsupported when there
+    is no write cache. *)
+Definition no_call_under (roots : list path) (tr : list event) : Prop :=
+  Forall (fun ev => match ev with EvCall c _ => away roots c = true | _ => True end) tr.
+
+Theorem C16_reject_get : forall roots cfg k, valid_name (k_name k) = false -> nonempty_stack cfg ->
+  forall w o, let '(r, _, _, tr) := run (cache_get cfg k) w o in r = Err InvalidInput /\ no_call_under roots tr.
+Proof.
+  intros roots cfg k Hbad Hne w o.
+  exact (allc_run _ _ _ (rej_cache_get roots (k_name k) Hbad k eq_refl cfg Hne) w o).
+Qed.
+
+Theorem C16_reject_touch : forall roots cfg k, valid_name (k_name k) = false -> nonempty_stack cfg ->
+  forall w o, let '(r, _, _, tr) := run (cache_touch cfg k) w o in r = Err InvalidInput /\ no_call_under roots tr.
+Proof.
+  intros roots cfg k Hbad Hne w o.
+  exact (allc_run _ _ _ (rej_cache_touch roots (k_name k) Hbad k eq_refl cfg Hne) w o).
+Qed.
+
+Theorem C16_reject_set : forall roots cfg k src, valid_name (k_name k) = false -> under roots src = false ->
+  forall w o, let '(r, _, _, tr) := run (cache_set cfg k src) w o in write_rejected cfg r /\ no_call_under roots tr.
+Proof.
+  intros roots cfg k src Hbad Hsrc w o.
+  exact (allc_run _ _ _ (rej_cache_set roots (k_name k) Hbad k eq_refl cfg src Hsrc) w o).
+Qed.
+
+Theorem C16_reject_put : forall roots cfg k src, valid_name (k_name k) = false -> under roots src = false ->
+  forall w o, let '(r, _, _, tr) := run (cache_put cfg k src) w o in write_rejected cfg r /\ no_call_under roots tr.
+Proof.
+  intros roots cfg k src Hbad Hsrc w o.
+  exact (allc_run _ _ _ (rej_cache_put roots (k_name k) Hbad k eq_refl cfg src Hsrc) w o).
+Qed.
+
+Theorem C16_reject_get_or_update : forall roots cfg k j pop wr, valid_name (k_name k) = false -> s_writer cfg = Some wr ->
+  forall w o, let '(r, _, _, tr) := run (get_or_update cfg k j pop) w o in r = Err InvalidInput /\ no_call_under roots tr.
+Proof.
+  intros roots cfg k j pop wr Hbad Hw w o.
+  exact (allc_run _ _ _ (rej_get_or_update roots (k_name k) Hbad k eq_refl cfg j pop wr Hw) w o).
+Qed.
+
+(** Non-vacuity: names the rule rejects, and one it accepts. *)
+Example C16_examples :
+  valid_name "" = false /\ valid_name ".x" = false /\ valid_name "/abs" = false /\ valid_name "\b" = false /\
+  valid_name "x/../../escaped" = false /\ valid_name "n/m" = false /\ valid_name "k3/" = false /\
+  valid_name "ok-name_1" = true /\ valid_name "a..b" = true.
+Proof. vm_compute. repeat split. Qed.
